@@ -818,6 +818,14 @@ class Gen:
                 if file_ok([f"{name}/{o}"]):
                     wf["outputs"][f"c{n}"] = {"type": cwl_type(types[f"{name}/{o}"]), "outputSource": f"{name}/{o}"}
                     n += 1
+        # the same for outputs of a sub-workflow step that nothing reads
+        for pth, what, key in unconnected(wf):
+            parts = [x for x in pth.split("/") if x]
+            if what == "output" and len(parts) == 1 and r.random() < 0.93:
+                src = f"{parts[0]}/{key}"
+                if src in types and file_ok([src]):
+                    wf["outputs"][f"c{n}"] = {"type": cwl_type(types[src]), "outputSource": src}
+                    n += 1
         out_types = {k: uncwl_type(d["type"]) for k, d in wf["outputs"].items()}
         if depth == 0:
             self.top_types = types
@@ -945,12 +953,13 @@ def dedup_sources(case):
     return c, changed
 
 
-def dangling_steps(wf):
-    """names of steps with no path to any workflow output."""
+def dangling_steps(wf, live_outputs=None):
+    """names of steps with no path to any (live) workflow output of THIS workflow."""
     live = set()
     work = []
-    for d in wf["outputs"].values():
-        work.extend(sources_of(d if isinstance(d, dict) else None))
+    for k, d in wf["outputs"].items():
+        if live_outputs is None or k in live_outputs:
+            work.extend(sources_of(d if isinstance(d, dict) else None))
     while work:
         s = work.pop()
         if "/" not in s:
@@ -962,6 +971,37 @@ def dangling_steps(wf):
         for v in wf["steps"][name]["in"].values():
             work.extend(sources_of(v))
     return sorted(set(wf["steps"]) - live)
+
+
+def unconnected(wf, live_outputs=None, path=""):
+    """everything that cannot influence the top-level outputs, at every nesting level:
+    [(path, 'step', name)] for steps without a path to a live output and [(path, 'output', key)] for outputs of a
+    nested workflow that nothing live in the enclosing workflow reads."""
+    out = []
+    dead = set(dangling_steps(wf, live_outputs))
+    out.extend((path, "step", n) for n in sorted(dead))
+    if live_outputs is not None:
+        out.extend((path, "output", k) for k in wf["outputs"] if k not in live_outputs)
+    # which outputs of each live sub-workflow step are read by something live
+    used = set()
+    for k, d in wf["outputs"].items():
+        if live_outputs is None or k in live_outputs:
+            used.update(sources_of(d if isinstance(d, dict) else None))
+    for n, st in wf["steps"].items():
+        if n not in dead:
+            for v in st["in"].values():
+                used.update(sources_of(v))
+    for n, st in wf["steps"].items():
+        run = st.get("run")
+        if n in dead or not isinstance(run, dict) or run.get("class") != "Workflow":
+            continue
+        lp = (st.get("requirements") or {}).get("cwltool:Loop")
+        inner_live = {o for o in st["out"] if f"{n}/{o}" in used}
+        if lp:  # loop sources read the step's own outputs
+            for v in lp.get("loop", {}).values():
+                inner_live.update(sources_of(v if isinstance(v, dict) else {"source": v}))
+        out.extend(unconnected(run, inner_live, f"{path}/{n}"))
+    return out
 
 
 def walk_workflows(wf, path=""):
@@ -983,6 +1023,8 @@ def doc_features(wf):
             F.add("repeated_source")
         if dangling_steps(w):
             F.add("dangling_step")
+        if not path and unconnected(w):
+            F.add("unconnected_part")
         for d in w["outputs"].values():
             if isinstance(d, dict):
                 n = len(d["outputSource"]) if isinstance(d.get("outputSource"), list) else 1
